@@ -1303,6 +1303,7 @@ func main() {
 		s.ShardMax = 1500
 	}
 	h.oracle.ShardMax = 4000
+	h.cross.ShardMax = 150
 	t0 := time.Now()
 	h.genOracle()
 	h.genDecode()
